@@ -215,10 +215,8 @@ fn ex_faults_empty(f: &[(u64, AcceptFault, u32)]) -> bool {
 fn server_level(cfg: &RunCfg) -> Outcome {
     // the global logger is process-wide: start from 'none installed'
     {
-        let (s, _r) = std::sync::mpsc::sync_channel::<servlin::log::internal::LogEvent>(1);
-        if let Ok(g) = servlin::log::set_global_logger(s) {
-            drop(g);
-        }
+        let mut g = servlin::log::internal::lock_global_logger();
+        *g = servlin::log::internal::GlobalLoggerState::None;
     }
     let dir = RunDir::new("c12");
     let s = 64usize;
